@@ -18,13 +18,18 @@ def layout_of(samples):
 class C15(Prop):
     id = "C15"
     lean_module = "NxsModel.Props.C15"
-    rule = ("sample lists over random layouts (all 18 standard types incl. fixed-point, user NUM/COMPLEX/CHAR types, "
-            "channel ids up to 254, vdim 1..255, mlen 0..255) with representable values (extremes, quiet NaN/inf, "
-            "fixed-point raws with |raw| < 2^53, NUL-padded text) through ParseRecv.frame_stream_encode; empty samples "
-            "mixed in; unrepresentable values and oversize lists on the error branch; distinct = distinct (user,samples); "
+    rule = ("sample lists over random layouts (all 18 standard types incl. fixed-point, user NUM/COMPLEX/CHAR types with "
+            "random format strings and ids 20..31, channel ids up to 254, vdim over 1..255, mlen over 0..255, en / critical / "
+            "device flags of the client's device object varied) with representable values (extremes, quiet NaN/inf, "
+            "fixed-point raws k*2^j up to the type limits: 2^62, (2^53-1)*2^11, -2^63 ..., NUL-padded UTF-8 text) through the "
+            "whole path ParseRecv.frame_stream_encode -> SerialFrame.frame_decode -> Parser.frame_stream_decode; sweeps: every "
+            "raw of the 8/16-bit types, the float-exact 2^k / 2^k±1 / complement patterns of the 32/64-bit ones, every float32 "
+            "exponent, every mlen, every vdim, every channel id; empty samples and all-empty lists mixed in on long-lived "
+            "encoders; unrepresentable values and oversize lists on the error branch; distinct = distinct (layout,user,samples); "
             "non-trivial = at least one sample with data or metadata")
-    assumptions = ["Representable: integer in range of the type; float exactly a float32/float64 (quiet NaNs); fixed-point "
-                   "raw/2^frac exactly a Python float (|raw| < 2^53); char data at most vdim bytes (NUL padded)"]
+    assumptions = ["Representable: integer in range of the type; float values numbers, infinities or quiet NaNs (no Python float "
+                   "narrows to a signalling float32 NaN; the encoder's x*1.0 quiets a signalling float64 NaN — NaNs are kept as a class); fixed-point raw/2^frac exactly a Python float (raw = m*2^e, |m| < 2^53); char "
+                   "data valid UTF-8 of at most vdim bytes (NUL padded)"]
 
     def __init__(self):
         from nxslib.proto.parserecv import ParseRecv
@@ -34,6 +39,7 @@ class C15(Prop):
         self.ParseRecv, self.ParseRecvCb, self.Parser, self.SerialFrame = ParseRecv, ParseRecvCb, Parser, SerialFrame
 
     _encoders = {}
+    _parsers = {}
 
     def _recv(self, user, fresh=False):
         """one long-lived device-side encoder per user-type configuration (a device keeps its encoder)"""
@@ -46,40 +52,100 @@ class C15(Prop):
             self._encoders[key] = enc
         return self._encoders[key]
 
+    def _parser(self, user):
+        """one long-lived client parser per user-type configuration"""
+        key = sg.user_str(user)
+        if key not in self._parsers:
+            self._parsers[key] = self.Parser(user_types=sg.real_user(user))
+        return self._parsers[key]
+
     def cases(self, rng, tier):
         T = tier == "thorough"
-        for it in range(1500 if T else 300):
+        for it in range(5000 if T else 300):
             user = gen.gen_user(rng)
             layout = gen.gen_layout(rng, user, big=(it % 40 == 39))
+            xs = gen.gen_xs(rng, layout)
             ns = rng.choice([0, 1, 1, 2, 3, 5, rng.randrange(0, 12)])
+            allempty = rng.random() < 0.06
             strs = []
             for _ in range(ns):
                 chan = rng.randrange(len(layout))
                 smp = gen.gen_sample(rng, layout, user, chan, for_encode=True)
-                if rng.random() < 0.12:
+                if allempty or rng.random() < 0.12:
                     ty, vd, ml = layout[chan]
                     strs.append(f"{chan},{ty},{vd},{ml},[],[]")          # carries neither data nor metadata
                 else:
                     strs.append(gen.sample_str(layout, user, smp, client_side=False))
-            yield f"stream encf {sg.user_str(user)} {'|'.join(strs) or '-'}", ("samples" if strs else "empty")
+            yield f"stream rt {sg.layout_str(layout, xs)} {sg.user_str(user)} {'|'.join(strs) or '-'}", ("samples" if strs else "empty")
+        # per-type sweeps through encode AND decode: all raws of the 8/16-bit types, the float-exact bit-pattern families
+        # of the wider ones (k*2^j up to the type limits), every float32 exponent
+        for ty in range(2, 18):
+            vals = gen.sweep_values(ty, T, for_encode=True)
+            for ch in gen.chunks(vals, 255):
+                yield f"stream rt {ty}:{len(ch)}:0 - 0,{ty},{len(ch)},0,[{';'.join(ch)}],[]", f"sweep-ty{ty}"
+        # every metadata length, every vector dimension, every channel id
+        for mlen in range(256):
+            ty = rng.choice([1, 2, 5, 10, 13, 18])
+            vd = 0 if ty == 1 else rng.choice([1, 2])
+            layout = [(ty, vd, mlen), (ty, vd, (mlen + 1) % 256)]
+            strs = [gen.sample_str(layout, {}, gen.gen_sample(rng, layout, {}, c, for_encode=True), False) for c in (0, 1, 0)]
+            if mlen == 0 and ty == 1:
+                strs = strs[1:2]
+            yield f"stream rt {sg.layout_str(layout)} - {'|'.join(strs)}", "mlen-sweep"
+        for vdim in range(1, 256):
+            ty = rng.randrange(2, 20)
+            layout = [(ty, vdim, rng.choice([0, 0, 1, 3]))]
+            strs = [gen.sample_str(layout, {}, gen.gen_sample(rng, layout, {}, 0, for_encode=True), False)]
+            yield f"stream rt {sg.layout_str(layout)} - {'|'.join(strs)}", "vdim-sweep"
+        layout = [(rng.randrange(2, 20), 1, rng.choice([0, 0, 1, 3])) for _ in range(255)]
+        order = list(range(255))
+        rng.shuffle(order)
+        for part in gen.chunks(order, 85):
+            strs = [gen.sample_str(layout, {}, gen.gen_sample(rng, layout, {}, c, for_encode=True), False) for c in part]
+            yield f"stream rt {sg.layout_str(layout)} - {'|'.join(strs)}", "chan-sweep"
         # error branch: values out of range, fixed-point of the wrong fraction, wrong arity, unknown type
         for s in ["0,2,1,0,[i:256],[]", "0,3,1,0,[i:-129],[]", "0,12,1,0,[x:65536:8],[]", "0,13,1,0,[x:-32769:8],[]",
                   "0,2,2,0,[i:1],[]", "0,2,1,0,[i:1;i:2],[]", "0,25,1,0,[i:1],[]", "255,2,1,0,[i:1],[]", "254,2,1,0,[i:1],[]",
                   "0,2,1,1,[i:1],[]", "0,2,1,1,[i:1],[256]", "0,2,1,2,[i:1],[65535]", "0,1,0,16,[],[1;2;3;4;5;6;7;8;9;10;11;12;13;14;15;16]",
-                  "0,1,3,0,[],[]", "0,1,3,1,[],[7]", "0,18,4,0,[t:68656c6c6f],[]", "0,18,4,0,[t:6869],[]"]:
+                  "0,1,3,0,[],[]", "0,1,3,1,[],[7]", "0,18,4,0,[t:68656c6c6f],[]", "0,18,4,0,[t:6869],[]",
+                  "0,16,1,0,[x:18446744073709549568:32],[]", "0,17,1,0,[x:-9223372036854775808:32],[]",
+                  "0,16,1,0,[x:18446744073709551616:32],[]", "0,17,1,0,[x:9223372036854775808:32],[]"]:
             yield f"stream encf - {s}", "edge"
+        # the client's layout disagrees with the device's samples (decode errors after a good encode)
+        for lay, s in [("2:1:0", "0,4,1,0,[i:258],[]"), ("4:1:0", "0,2,1,0,[i:7],[]"), ("2:1:0", "1,2,1,0,[i:7],[]"),
+                       ("18:2:0", "0,4,1,0,[i:65279],[]"), ("2:1:1", "0,2,1,0,[i:7],[]")]:
+            yield f"stream rt {lay} - {s}", "layout-mismatch"
         # oversize: payload beyond 65529 bytes must be refused
         big = "|".join(f"{i % 4},11,64,0,[{';'.join(['d:3ff0000000000000'] * 64)}],[]" for i in range(130))
         yield f"stream encf - {big}", "oversize"
+        yield f"stream rt 11:64:0,11:64:0,11:64:0,11:64:0 - {big}", "oversize"
 
     def impl(self, line):
         t = line.split(" ")
-        user = parse_user(t[2])
+        if t[1] == "encf":
+            user = parse_user(t[2])
+            try:
+                f = self._recv(user).frame_stream_encode(sg.real_samples(t[3]))
+            except Exception as e:
+                return "err " + exc_name(e)
+            return "ok none" if f is None else "ok " + hexs(f)
+        # rt: real encoder -> real SerialFrame.frame_decode -> real Parser.frame_stream_decode
+        (layout, xs), user = sg.parse_layout(t[2]), parse_user(t[3])
         try:
-            f = self._recv(user).frame_stream_encode(sg.real_samples(t[3]))
+            f = self._recv(user).frame_stream_encode(sg.real_samples(t[4]))
         except Exception as e:
             return "err " + exc_name(e)
-        return "ok none" if f is None else "ok " + hexs(f)
+        if f is None:
+            return "ok none"
+        out = "ok " + hexs(f) + " "
+        fr = self.SerialFrame().frame_decode(f)
+        if fr.err != 0:
+            return out + "ferr " + fr.err.name
+        try:
+            ds = self._parser(user).frame_stream_decode(fr, sg.real_device(layout, xs))
+        except Exception as e:
+            return out + "derr " + exc_name(e)
+        return out + sg.canon_decoded(ds, layout, user, fr.data)[3:]
 
     def nontrivial(self, line, out):
         return "[i:" in line or "[x:" in line or "[f:" in line or "[d:" in line or "[t:" in line or "[b:" in line or "[o:" in line
@@ -88,12 +154,19 @@ class C15(Prop):
         """encode on the device side, decode on the client side: same samples (those with data or metadata), same order;
         none left -> no frame"""
         t = line.split(" ")
-        user = parse_user(t[2])
-        if t[3] == "-":
-            strs = []
+        if t[1] == "rt":
+            (layout, xs), user, sstr = sg.parse_layout(t[2]), parse_user(t[3]), t[4]
         else:
-            strs = t[3].split("|")
+            layout, xs, user, sstr = None, None, parse_user(t[2]), t[3]
+        strs = [] if sstr == "-" else sstr.split("|")
         parsed = [sg.parse_sample(s) for s in strs]
+        if layout is None:
+            layout = layout_of(strs)
+        if len(layout) > 255:
+            return None
+        for c, ty, vd, ml, data, meta in parsed:
+            if (data or meta) and (c >= len(layout) or layout[c] != (ty, vd, ml)):
+                return None   # the client's layout must be the device's
         # Representable / well-formed guard
         for c, ty, vd, ml, data, meta in parsed:
             if ty not in sg.STD and ty not in user:
@@ -116,17 +189,22 @@ class C15(Prop):
                     lo, hi = gen.int_range(code)
                     if not lo <= raw <= hi:
                         return None
-                    if k == "x" and (int(rest.split(":")[1]) != sg.frac_of(ty) or abs(raw) >= 1 << 53):
+                    if k == "x" and (int(rest.split(":")[1]) != sg.frac_of(ty) or not gen.float_exact(raw)):
+                        return None   # raw / 2^frac must be a value a Python float can take
+                    if (k == "x") != bool(sg.frac_of(ty) if ty in sg.STD else None):
                         return None
+                if k == "f" and gen._quiet32(int(rest, 16)) != int(rest, 16):
+                    return None       # no Python float narrows to a signalling float32 NaN
+                if k == "d" and gen._quiet64(int(rest, 16)) != int(rest, 16):
+                    return None       # NaNs are preserved as a class: the encoder's `x * 1.0` quiets a signalling NaN
                 if k == "t" and len(bytes.fromhex(rest) if rest != "-" else b"") > size:
                     return None
             for (code, size), m in zip(sg.meta_atoms(ml), meta):
                 if not 0 <= m < 1 << (8 * size):
                     return None
         keep = [p for p in parsed if p[4] or p[5]]
-        layout = layout_of(strs)
         try:
-            f = self._recv(user).frame_stream_encode(sg.real_samples(t[3]))
+            f = self._recv(user).frame_stream_encode(sg.real_samples(sstr))
         except Exception as e:
             wire = sg.ref_wire(layout, user, [(c, d, m) for c, ty, vd, ml, d, m in keep]) if keep else b""
             if len(wire) > 65529:
@@ -144,7 +222,7 @@ class C15(Prop):
         if fr.err != 0 or int(fr.fid) != 1:
             return {"key": "bad-frame", "what": "encoder output is not a valid STREAM frame", "expected": "STREAM", "observed": str(fr.err)}
         try:
-            ds = self.Parser(user_types=sg.real_user(user)).frame_stream_decode(fr, sg.real_device(layout))
+            ds = self.Parser(user_types=sg.real_user(user)).frame_stream_decode(fr, sg.real_device(layout, xs))
         except Exception as e:
             return {"key": "round-trip", "what": f"the client decoder raises {type(e).__name__} on the frame the device-side encoder built "
                     "for representable samples", "expected": "the samples", "observed": exc_name(e), "payload": hexs(fr.data)[:200]}
@@ -164,7 +242,8 @@ class C15(Prop):
             exp.append(f"{c},{sg.dtype_of(ty, user)},{vd},{ml},[{';'.join(vals)}],[{';'.join(str(m) for m in meta)}]")
         want = "ok 0 " + "|".join(exp)
         if got != want:
-            return {"key": "round-trip", "what": "decode(encode(samples)) differs from the samples", "expected": want[:500], "observed": got[:500]}
+            return {"key": "round-trip", "what": "decode(encode(samples)) differs from the samples: " + sg.first_difference(want, got),
+                    "expected": want[:500], "observed": got[:500]}
         return None
 
 
